@@ -97,17 +97,33 @@ def loop_checks(chk, prog, fn, reader, only_tail=False):
     body_ok = False
     tbl_ok = False
     src, per = pointer_list(it0)
+    inline = False
+    if src is None:
+        x = iter_source(it0)
+        if isinstance(x, tuple) and x and x[0] == "chunks":
+            # the block loop walks the 4-byte chunks itself and folds each into its pointer inside the iteration: the
+            # endianness obligation is then part of the locate step (the seek offset is the big-endian u32 of this chunk)
+            src, inline = x, True
     if src is not None:
         tbl_ok = src[0] == "chunks" and src[2] == C(4, "usize") and sym.sem_eq(strip_ovf_deep(src[1]), raw)
         body_ok = per is not None and per[0] == "be" and per[2] == "u32" and sym.norm_arith(per[1]) in (sym.ELEM, ("vfld", ("call", "core::convert::TryInto::try_into", (sym.ELEM,)), "Ok", "0")) \
             or (per is not None and per[0] == "be" and per[2] == "u32" and set(a for a in sym.atoms(per[1]) if a[0] == "p") == {sym.ELEM})
     chk.ob("VN", FN, tbl_ok, "the pointer table is data_block_count x 4 bytes read immediately after the header, split into 4-byte chunks in order", w, key="pointer-table")
-    chk.ob("VN", FN, body_ok, "each pointer is the big-endian u32 of its chunk", w, key="pointer-endianness")
+    if not inline:
+        chk.ob("VN", FN, body_ok, "each pointer is the big-endian u32 of its chunk", w, key="pointer-endianness")
     # iterations
     L = P("L%d" % lm)
     I = P("L%d" % li)
     nxt = ("call", "<alloc::vec::into_iter::IntoIter<T, A> as core::iter::traits::iterator::Iterator>::next", (I,))
     ptr = ("vfld", nxt, "Some", "0")
+    if inline:
+        nx_ = [c[0][1] for conds, kind, val in lp["paths"] if kind == "next" for c in conds[:1]
+               if len(c) == 3 and c[0][0] == "discr" and c[0][1][0] == "call" and c[0][1][1].endswith("::next") and c[0][1][2] == (I,)]
+        if nx_:
+            nxt = nx_[0]
+        chunk = ("vfld", nxt, "Some", "0")
+        ptr = ("be", ("array", tuple(("idx", chunk, C(i, "usize")) for i in range(4))), "u32")
+    locate_ok = []
     bid = call(DES % (D + "data_block_id::DataBlockId"), reader)
     name = None
     byte_form = False
@@ -128,7 +144,8 @@ def loop_checks(chk, prog, fn, reader, only_tail=False):
         if okp:
             s0, s1, s2 = steps[0], steps[1], steps[2]
             want_seek = call("std::io::Seek::seek", reader, adt("std::io::SeekFrom", "Start", (("0", binop("Add", okv(call("std::io::Seek::stream_position", reader)), cast(ptr, "u32", "u64"), "u64")),)))
-            okp = strip_ovf_deep(s0) == want_seek and s1 == bid and s2 == call("std::io::Seek::seek", reader, adt("std::io::SeekFrom", "Current", (("0", C(-4, "i64")),)))
+            okp = (strip_ovf_deep(s0) == want_seek or sym.sem_eq(strip_ovf_deep(s0), want_seek)) and s1 == bid and s2 == call("std::io::Seek::seek", reader, adt("std::io::SeekFrom", "Current", (("0", C(-4, "i64")),)))
+        locate_ok.append(bool(okp))
         if only_tail:
             last = steps[-1] if steps else ("?",)
             okl = last[0] == "call" and (last[1].startswith("nexrad_decode::util::deserialize::<") or last[1] == "std::io::Read::read_exact")
@@ -190,6 +207,8 @@ def loop_checks(chk, prog, fn, reader, only_tail=False):
             chk.ob("R-TABLE", FN, False, "an iteration stores a block without exactly one name match (names %s, field %s)" % (true_lits, upd_field), w, key="dispatch-shape#%d" % n_next)
         it = val[li]
         chk.ob("R-LIN", FN, it[0] == "mutated" and it[3][0] == I, "one pointer consumed per iteration", w, key="advance")
+    if inline and not only_tail:
+        chk.ob("VN", FN, bool(locate_ok) and all(locate_ok), "each pointer is the big-endian u32 of its chunk", w, key="pointer-endianness")
     # after the last block nothing else touches the reader: the message ends where its last block ends
     try:
         ret = loops.exit_value(prog, fn, lp, opaque=[GNEW])
